@@ -225,6 +225,31 @@ pub fn san_variants(rng: &mut StdRng, b: &Board, base: &[String]) -> Vec<String>
     // UCI spellings of semilegal moves (SAN parsing accepts them if legal)
     let mut semi = Vec::new();
     semilegal::gen_all_into(b, &mut semi);
+    // every semilegal piece move - in particular the ILLEGAL ones (pinned piece, king into check) - written
+    // with no hint, a file hint, a rank hint and the full origin square, with and without a capture mark
+    let lg = legal::gen_all(b);
+    for m in semi.iter() {
+        let p = match m.src_cell().piece() {
+            Some(owlchess::types::Piece::Pawn) | None => continue,
+            Some(p) => "PKNBRQ".chars().nth(p.index()).unwrap(),
+        };
+        if m.kind() != owlchess::moves::MoveKind::Simple {
+            continue;
+        }
+        let is_illegal = !lg.contains(m);
+        if !is_illegal && !rng.gen_bool(0.15) {
+            continue;
+        }
+        let src = m.src().to_string();
+        let (sf, sr) = (&src[0..1], &src[1..2]);
+        let dst = m.dst().to_string();
+        for x in ["", "x"] {
+            v.push(format!("{p}{x}{dst}"));
+            v.push(format!("{p}{sf}{x}{dst}"));
+            v.push(format!("{p}{sr}{x}{dst}"));
+            v.push(format!("{p}{sf}{sr}{x}{dst}"));
+        }
+    }
     for m in semi.iter().take(60) {
         if rng.gen_bool(0.25) {
             v.push(m.to_string());
